@@ -27,7 +27,18 @@ const (
 type tree struct {
 	kind leafKind
 	fn   string
+	text string // lWord: the word (default "a"); lKey: the key (default "k")
 	args []*tree
+}
+
+func (t *tree) word() string {
+	if t.text != "" {
+		return t.text
+	}
+	if t.kind == lKey {
+		return "k"
+	}
+	return "a"
 }
 
 var leafKinds = []leafKind{lWord, lQuoted, lEmpty, lGroup0, lGroup1, lKey, lMixed}
@@ -36,7 +47,7 @@ var leafKinds = []leafKind{lWord, lQuoted, lEmpty, lGroup0, lGroup1, lKey, lMixe
 func (t *tree) value() string {
 	switch t.kind {
 	case lWord:
-		return "a"
+		return t.word()
 	case lQuoted:
 		return "b c"
 	case lEmpty:
@@ -46,7 +57,7 @@ func (t *tree) value() string {
 	case lGroup1:
 		return matchValue(1)
 	case lKey:
-		return keyValue("k")
+		return keyValue(t.word())
 	case lMixed:
 		return "p" + matchValue(1)
 	}
@@ -60,7 +71,7 @@ func (t *tree) value() string {
 func (t *tree) String() string {
 	switch t.kind {
 	case lWord:
-		return "a"
+		return t.word()
 	case lQuoted:
 		return `"b c"`
 	case lEmpty:
@@ -70,7 +81,7 @@ func (t *tree) String() string {
 	case lGroup1:
 		return "{1}"
 	case lKey:
-		return "{k}"
+		return "{" + t.word() + "}"
 	case lMixed:
 		return "p{1}"
 	}
@@ -157,9 +168,9 @@ func (p *printer) arg(t *tree) string {
 	switch t.kind {
 	case lWord:
 		if p.quoteChoice(vkQuoteWord, "quote-word") {
-			return `"a"`
+			return `"` + t.word() + `"`
 		}
-		return "a"
+		return t.word()
 	case lQuoted:
 		return `"b c"`
 	case lEmpty:
